@@ -136,7 +136,7 @@ struct KV {
     int64_t num(const std::string& k, int64_t d = 0) const { for (auto& p : v) if (p.first == k) return strtoll(p.second.c_str(), 0, 0); return d; }
     uint64_t u64(const std::string& k, uint64_t d = 0) const { for (auto& p : v) if (p.first == k) return strtoull(p.second.c_str(), 0, 0); return d; }
     Bytes bytes(const std::string& k) const { return unhex(str(k, "-")); }
-    KV& set(const std::string& k, const std::string& val) { for (auto& p : v) if (p.first == k) { p.second = val; return *this; } v.push_back(std::make_pair(k, val)); return *this; }
+    KV& set(const std::string& k, const std::string& val) { for (auto& p : v) if (p.first == k) { if (p.second != val && getenv("VERIF_KV_STRICT")) fprintf(stderr, "KV: key '%s' overwritten (%s -> %s)\n", k.c_str(), p.second.substr(0, 40).c_str(), val.substr(0, 40).c_str()); p.second = val; return *this; } v.push_back(std::make_pair(k, val)); return *this; }
     KV& set(const std::string& k, int64_t val) { return set(k, fmt("%lld", (long long)val)); }
     KV& setu(const std::string& k, uint64_t val) { return set(k, fmt("%llu", (unsigned long long)val)); }
     KV& set(const std::string& k, const Bytes& b) { return set(k, hex(b)); }
